@@ -2,7 +2,13 @@
 
 An op is a JSON-able list whose second element is the client index, e.g. ["set", 0, "k:a", "t1", 8, "nx"],
 ["deliver", 1] (no-op marker: the harness pumps every listener after every command anyway), ["drop", 1],
-["reconnect", 1], ["adv", 8].  TTLs / advances are ticks of 1/8 s.
+["refuse", 1], ["reconnect", 1], ["adv", 8].  TTLs / advances are ticks of 1/8 s.
+
+The reconnect schedule of an outage is explicit in the history: after ["drop", c] the listener of c waits `_RECONNECT_WAIT`
+(80 ticks of VIRTUAL time: the code's own `asyncio.sleep(10)` on the virtual loop, never patched to 0) and then makes a
+connect attempt, which HANGS at the stub until the history answers it: ["refuse", c] = the attempt is refused now (the code
+clears the local copy again and waits another 80 ticks), ["reconnect", c] = it is accepted now.  Both require that the wait is
+over (enough ["adv", t] since the drop / the last refusal); commands placed between them run DURING the outage.
 """
 from __future__ import annotations
 
@@ -110,6 +116,11 @@ def gen_history(rng, nclients: int, maxlen: int, with_drops: bool = True):
                         ops.append(["adv", t])
                     for x in dropped:
                         dropped[x] += t
+                if rng.random() < 0.3:
+                    # this attempt is refused: the outage goes on, the listener waits again
+                    ops.append(["refuse", d])
+                    dropped[d] = 0
+                    continue
                 ops.append(["reconnect", d])
                 del dropped[d]
                 # what the staleness would show up on: the reconnected client reads, another client writes, it reads again
@@ -119,6 +130,169 @@ def gen_history(rng, nclients: int, maxlen: int, with_drops: bool = True):
                     ops.append(["get", d, key])
                     ops.append(["set", other, key, pick(CVALS), None, "a"])
                     ops.append(["get", d, key])
+    return ops
+
+
+def _read_op(rng, c, keys):
+    """a read by client c that touches `keys` (every such read made while c is disconnected is answered by the server AND
+    written into c's local copy)"""
+    r = rng.random()
+    if r < 0.45 or len(keys) == 0:
+        return [["get", c, k] for k in keys] or [["get", c, rng.choice(KEYS)]]
+    if r < 0.75:
+        return [["getmany", c, list(keys)]]
+    if r < 0.9:
+        return [["exists", c, k] for k in keys] + [["get", c, k] for k in keys]
+    return [["getmatch", c, rng.choice(["k:*", "k*", "j*", "k:a"])]] + [["get", c, k] for k in keys]
+
+
+def _change_op(rng, o, k):
+    """a change of key k made by client o (k may be absent: then most of these create it)"""
+    pick = rng.choice
+    kind = pick(["set", "set", "set", "setttl", "delete", "delete", "incr", "expire0", "setmany", "clear", "delmatch", "setnx"])
+    if k == "k:zz" and kind in ("incr",):
+        kind = "set"
+    if kind == "set":
+        return ["set", o, k, pick(CVALS), None, "a"]
+    if kind == "setttl":
+        return ["set", o, k, pick(CVALS), pick([8, 16, 80, 240]), "a"]
+    if kind == "setnx":
+        return ["set", o, k, pick(CVALS), None, "nx"]
+    if kind == "delete":
+        return ["delete", o, k]
+    if kind == "incr":
+        return ["incr", o, k if k in ("k:b", "j:a") else "k:b", pick([1, 2, -1]), pick([None, None, 16])]
+    if kind == "expire0":
+        return ["expire", o, k, 0]
+    if kind == "setmany":
+        return ["setmany", o, None, [[k, pick(CVALS)]]]
+    if kind == "clear":
+        return ["clear", o]
+    return ["delmatch", o, pick(["k:*", "*", "j*"])]
+
+
+def _spread_advances(rng, body, total):
+    """insert advances summing to `total` ticks at random positions of `body`"""
+    parts = rng.choice([[total], [total], [total - 8, 8], [8, total - 8], [total // 2, total - total // 2], [1, total - 1]])
+    out = list(body)
+    for t in parts:
+        out.insert(rng.randint(0, len(out)), ["adv", t])
+    return out
+
+
+def gen_outage_history(rng, nclients: int, maxpre: int = 6):
+    """one outage of one client's invalidation connection with an explicit reconnect schedule:
+        warm-up; drop c; (window; refuse c) x r; last window; reconnect c; reads; tail
+    Every window lasts at least `_RECONNECT_WAIT` of virtual time (advances are spread over it, so the commands fall before
+    and after the moment the listener starts its next attempt).  In the windows - in the LAST one always - c reads keys
+    (hit or miss), other clients change / create / delete them, c may read again; after the reconnect c reads them again,
+    somebody changes them once more and c reads a last time (the re-established connection must invalidate)."""
+    pick = rng.choice
+    c = rng.randrange(nclients)
+    others = [x for x in range(nclients) if x != c] or [c]
+    allkeys = KEYS + ["k:zz"]
+    ops = gen_history(rng, nclients, maxpre, with_drops=False) if maxpre >= 2 else []
+    ops.append(["drop", c])
+    nref = pick([0, 0, 1, 1, 2, 3])
+    watched: list[str] = []
+    for w in range(nref + 1):
+        last = w == nref
+        body = []
+        if last or rng.random() < 0.6:
+            keys = rng.sample(allkeys, rng.randint(1, 3))
+            body += _read_op(rng, c, keys)
+            for k in keys:
+                if rng.random() < 0.85:
+                    body.append(_change_op(rng, pick(others), k))
+            if rng.random() < 0.3:
+                # the disconnected client writes too (its local copy takes the value); somebody else overwrites
+                k = pick(keys)
+                body.append(["set", c, k, pick(CVALS), None, "a"])
+                body.append(_change_op(rng, pick(others), k))
+            if rng.random() < 0.5:
+                body += _read_op(rng, c, keys)          # still disconnected: must already see the change
+            if last:
+                watched = keys
+        if rng.random() < 0.4:
+            body += [op for op in gen_history(rng, nclients, 3, with_drops=False)]
+        ops += _spread_advances(rng, body, RECONNECT_TICKS + pick([0, 0, 0, 8, 40]))
+        ops.append(["reconnect", c] if last else ["refuse", c])
+    ops += _read_op(rng, c, watched)
+    if watched and rng.random() < 0.7:
+        k = pick(watched)
+        ops.append(_change_op(rng, pick(others), k))
+        ops += _read_op(rng, c, [k])
+    if rng.random() < 0.5:
+        ops += gen_history(rng, nclients, 4, with_drops=False)
+    return ops
+
+
+# what a client may know about a key before it issues a command on it …
+ECHO_STATES = ["known_absent", "cached", "unknown"]
+# … and the commands whose echo mark / local write must match what the server really did (a command the server treats as a
+# no-op announces nothing: a mark left behind would swallow the NEXT announcement, somebody else's)
+ECHO_OPS = ["expire", "expire_long", "getexpire", "setnx", "setxx", "incr", "incr_ttl", "delete", "delmany", "setmany", "expire0"]
+# (locks are left to the random generator: a key locked with a raw token must be probed with exists, not get)
+ECHO_PAIRS = [(st, o) for st in ECHO_STATES for o in ECHO_OPS]
+
+
+def _echo_motif(rng, nclients, state, opk, key):
+    """client a gets into `state` about `key`, issues `opk` on it, another client changes the key shortly afterwards (inside or
+    outside the 5 s life of an echo mark), a reads"""
+    pick = rng.choice
+    a = rng.randrange(nclients)
+    b = pick([x for x in range(nclients) if x != a] or [a])
+    ops = []
+    if state == "known_absent":
+        ops.append(["delete", b, key])
+        ops.append(pick([["get", a, key], ["getmany", a, [key, "k:zz"]], ["delete", a, key], ["expire", a, key, 0]]))
+    elif state == "cached":
+        ops.append(["set", b, key, pick(["i1", "i2", "t0"]), pick([None, None, 80]), "a"])
+        ops.append(pick([["get", a, key], ["getmany", a, [key]]]))
+    else:
+        ops.append(pick([["delete", b, key], ["set", b, key, pick(["i1", "t1"]), None, "a"]]))
+    if opk == "expire":
+        ops.append(["expire", a, key, pick([8, 16, 80])])
+    elif opk == "expire_long":
+        ops.append(["expire", a, key, 800])
+    elif opk == "expire0":
+        ops.append(["expire", a, key, 0])
+    elif opk == "getexpire":
+        ops.append(["getexpire", a, key])
+    elif opk == "setnx":
+        ops.append(["set", a, key, pick(CVALS), pick([None, 16]), "nx"])
+    elif opk == "setxx":
+        ops.append(["set", a, key, pick(CVALS), pick([None, 16]), "xx"])
+    elif opk == "incr":
+        ops.append(["incr", a, key, pick([1, -1, 2]), None])
+    elif opk == "incr_ttl":
+        ops.append(["incr", a, key, pick([1, -1]), pick([8, 16])])
+    elif opk == "delete":
+        ops.append(["delete", a, key])
+    elif opk == "delmany":
+        ops.append(["delmany", a, [key, "k:zz"]])
+    elif opk == "setmany":
+        ops.append(["setmany", a, pick([None, 16]), [[key, pick(CVALS)]]])
+    delay = pick([0, 0, 1, 8, 16, 39, 41, 80])
+    if delay:
+        ops.append(["adv", delay])
+    ops.append(pick([["set", b, key, pick(["i1", "i2", "t2", "none"]), None, "a"], ["set", b, key, pick(["t1", "i0"]), None, "a"],
+                     ["setmany", b, None, [[key, pick(CVALS)]]], ["incr", b, key, 1, None], ["delete", b, key],
+                     ["expire", b, key, 0]]))
+    ops.append(pick([["get", a, key], ["get", a, key], ["getmany", a, [key]], ["exists", a, key]]))
+    if rng.random() < 0.4:
+        ops.append(["adv", pick([8, 40])])
+        ops.append(["get", a, key])
+    return ops
+
+
+def gen_echo_history(rng, nclients: int, index: int, per_history: int = 4):
+    """`per_history` motifs `state x command -> foreign change -> read`; the (state, command) pairs are swept round-robin by
+    `index`, so that every pair is exercised several times in a run whatever the seed"""
+    ops = []
+    for j in range(per_history):
+        state, opk = ECHO_PAIRS[(index * per_history + j) % len(ECHO_PAIRS)]
+        ops += _echo_motif(rng, nclients, state, opk, rng.choice(KEYS))
     return ops
 
 
@@ -145,7 +319,7 @@ def model_line(op, codec: Codec) -> str:
         return f"setlock {c} {hx(op[2])} {bytes_tok(TOKENS[op[3]])} {op[4] * MS}"
     if n == "unlock":
         return f"unlock {c} {hx(op[2])} {bytes_tok(TOKENS[op[3]])}"
-    if n in ("clear", "drop", "reconnect", "deliver"):
+    if n in ("clear", "drop", "reconnect", "deliver", "refuse"):
         return f"{n} {c}"
     raise HarnessError(f"unknown op {op!r}")
 
@@ -174,6 +348,7 @@ class Runner:
         if self.drv.ask("enc " + " ".join(encs)) != "ok":
             raise HarnessError("driver refused enc")
         self.dropped: set[int] = set()
+        self.due: dict[int, int] = {}      # dropped client -> virtual tick at which its listener's reconnect wait is over
 
     async def settle(self, what=lambda: True, limit=400):
         for _ in range(limit):
@@ -290,11 +465,31 @@ class Runner:
             port.conn.wakeup.set()
             self.dropped.add(c)
             await self.settle(lambda: not b._listen_started.is_set())
+            self.due[c] = CLOCK.ticks() + RECONNECT_TICKS
+            return "N", None
+        if n == "refuse":
+            # the connect attempt the listener makes once its wait is over is answered by a refusal NOW
+            port = self.hub.ports[c]
+            if c not in self.dropped:
+                raise HarnessError(f"history refuses a connect attempt of client {c}, which is connected")
+            if CLOCK.ticks() < self.due[c]:
+                raise HarnessError(f"history answers a connect attempt of client {c} before its reconnect wait is over")
+            await self.settle(lambda: port.waiting_connect)
+            r0 = port.refused
+            port.refuse_next = 1
+            port.allow_connect.set()
+            await self.settle(lambda: port.refused == r0 + 1 and not port.waiting_connect)
+            if b._listen_started.is_set():
+                raise HarnessError("listener running after a refused connect attempt")
+            self.due[c] = CLOCK.ticks() + RECONNECT_TICKS
             return "N", None
         if n == "reconnect":
             port = self.hub.ports[c]
+            if c in self.dropped and CLOCK.ticks() < self.due[c]:
+                raise HarnessError(f"history answers a connect attempt of client {c} before its reconnect wait is over")
             port.allow_connect.set()
             self.dropped.discard(c)
+            self.due.pop(c, None)
             await self.settle(lambda: b._listen_started.is_set() and port.conn is not None and port.conn.idle)
             return "N", None
         raise HarnessError(f"unknown op {op!r}")
@@ -326,8 +521,13 @@ def run_case(drv, nclients, ops):
                     if i not in rn.dropped:
                         drv.ask(f"op deliver {i}")
             d = drv.ask("dump")
-            steps.append({"op": op, "line": line, "impl": out, "server": want, "model": model, "detail": detail,
-                          "model_queues_before_delivery": mq, "dump": d})
+            step = {"op": op, "line": line, "impl": out, "server": want, "model": model, "detail": detail,
+                    "model_queues_before_delivery": mq, "dump": d}
+            if rn.dropped or op[0] in ("reconnect", "refuse", "drop"):
+                # what the model says the local copies of the clients in an outage hold at this point (shown in replays)
+                who = sorted(rn.dropped | ({op[1]} if op[0] in ("reconnect", "refuse", "drop") else set()))
+                step["model_local"] = {str(i): drv.ask(f"loc {i} " + " ".join(hx(k) for k in KEYS + ["k:zz"] + LOCKS)) for i in who}
+            steps.append(step)
         return steps            # (no close(): it would wait for the parked listeners; vtime.run cancels them)
 
     try:
